@@ -245,6 +245,11 @@ theorem parseAck_se {a b : Kcp} (h : KSE a b) (sn : U32) : KSE (parseAck a sn) (
   · exact ⟨v, rfl⟩
   · exact ⟨v, rfl⟩
 
+theorem shrinkBuf_se {a b : Kcp} (h : KSE a b) : KSE (shrinkBuf a) (shrinkBuf b) := by
+  obtain ⟨v, rfl⟩ := h
+  rw [shrinkBuf_eq, shrinkBuf_eq]
+  exact ⟨v, rfl⟩
+
 theorem parseFastack_se {a b : Kcp} (h : KSE a b) (sn ts : U32) :
     KSE (parseFastack a sn ts).1 (parseFastack b sn ts).1 ∧ (parseFastack a sn ts).2 = (parseFastack b sn ts).2 := by
   obtain ⟨v, rfl⟩ := h
@@ -280,7 +285,7 @@ theorem inStep_se (regular : Bool) (conv : U32) (cmd frg : BitVec 8) (wnd : BitV
     (payload : Bytes) {x y : InLoop} (h : LSE x y) :
     LSE (inStep regular conv cmd frg wnd ts sn una payload x) (inStep regular conv cmd frg wnd ts sn una payload y) := by
   have hp := inPre_se h.k regular wnd una
-  have hf := parseFastack_se (parseAck_se hp.1 sn) sn ts
+  have hf := parseFastack_se (shrinkBuf_se (parseAck_se hp.1 sn)) sn ts
   have hd := parseData_se (hp.1.map (fun k => { k with acklist := k.acklist ++ [⟨sn, ts⟩] }) (fun _ _ => rfl))
     (pushSeg conv cmd frg wnd ts sn una payload)
   rw [inStep_eq, inStep_eq, hp.2, hf.2, hp.1.readsR.1, hp.1.readsR.2.1, h.flushSeg]
